@@ -96,12 +96,15 @@ theorem s_batch (fuel : Nat) (b : Bool) : SafeM cap (fskOokReadPayloadBatch fuel
       · intro hfit
         have hfit' : h.expected.toNat ≤ cap := by rw [← hh.1]; omega
         apply SafeI_ite
-        · intro hb
-          have hroom : h.received.toNat + (Gen.HALF_MAX_FIFO_THRESHOLD - 1) ≤ cap := by omega
-          rw [if_pos (by rw [hh.1]; exact hroom)]
-          apply SafeI_bread_bind; intro d hd
-          apply SafeI_bind (s_packetCopy _ _ (by rw [hd]; exact hroom)); intro _
-          safe_mod
+        · intro _
+          apply SafeI_ite
+          · intro hb
+            have hroom : h.received.toNat + (Gen.HALF_MAX_FIFO_THRESHOLD - 1) ≤ cap := by omega
+            rw [if_pos (by rw [hh.1]; exact hroom)]
+            apply SafeI_bread_bind; intro d hd
+            apply SafeI_bind (s_packetCopy _ _ (by rw [hd]; exact hroom)); intro _
+            safe_mod
+          · intro _; exact SafeI_pure _
         · intro _
           apply SafeI_ite
           · intro hs
